@@ -21,7 +21,7 @@ from inline_snapshot import snapshot
 __all__ = [
     "Color", "Perm", "Outer", "DC", "DCD", "DCN", "AT", "PM", "NT", "NTD", "NoCode", "NoCodeBox", "BadCopy", "RaisesEq",
     "Unorderable", "REC", "rec", "ok", "mark", "check_eq", "check_le", "check_ge", "check_in", "G", "set_g",
-    "Is", "outsource", "snapshot", "defaultdict", "ident", "Plain", "EvilEq", "snapshot_alias",
+    "Is", "outsource", "snapshot", "defaultdict", "ident", "Plain", "EvilEq", "snapshot_alias", "NP", "NPBool",
 ]
 
 defaultdict = collections.defaultdict
@@ -181,6 +181,57 @@ class EvilEq:
         raise ValueError("EvilEq compared with a foreign type")
 
     __hash__ = None
+
+
+class NPBool:
+    """the answer of a comparison between NP scalars: truthy / falsy, but not the builtin True / False (like numpy.bool_)"""
+
+    def __init__(self, v):
+        self.v = bool(v)
+
+    def __bool__(self):
+        return self.v
+
+    def __repr__(self):
+        return f"NPBool({self.v})"
+
+
+class NP:
+    """a numpy-like scalar: its comparisons answer NPBool objects"""
+
+    def __init__(self, x):
+        self.x = x
+
+    def __repr__(self):
+        return f"NP({self.x!r})"
+
+    def _cmp(self, other, op):
+        if isinstance(other, NP):
+            other = other.x
+        if not isinstance(other, (int, float)) or isinstance(other, bool):
+            return NotImplemented
+        return NPBool(op(self.x, other))
+
+    def __eq__(self, other):
+        return self._cmp(other, lambda a, b: a == b)
+
+    def __ne__(self, other):
+        return self._cmp(other, lambda a, b: a != b)
+
+    def __le__(self, other):
+        return self._cmp(other, lambda a, b: a <= b)
+
+    def __ge__(self, other):
+        return self._cmp(other, lambda a, b: a >= b)
+
+    def __lt__(self, other):
+        return self._cmp(other, lambda a, b: a < b)
+
+    def __gt__(self, other):
+        return self._cmp(other, lambda a, b: a > b)
+
+    def __hash__(self):
+        return hash(self.x)
 
 
 class Unorderable:
